@@ -22,7 +22,8 @@ def full_name(d, f):
 def methods_of(model):
     return [full_name(d, f) for d in model for f in d[7]]
 
-ODD_NAMES = ['q"x', 'a"', '"', 'say"hi"there']
+ODD_NAMES = ['q"x', 'a"', '"', 'say"hi"there',
+             'newThread(()->svc.start', '((Supplier<String>)()->s.get']     # what the Java front end records for calls made on lambda expressions: an arrow without blanks
 
 def random_graph_model(rng, quotes=False, max_classes=6, max_methods=25, dense=False):
     """a random multigraph of methods over a few classes: cycles, self-loops, parallel edges,
@@ -70,6 +71,13 @@ def random_graph_model(rng, quotes=False, max_classes=6, max_methods=25, dense=F
                 calls.append(mk_call(classes[tci][0], classes[tci][1], ""))          # constructor call
             if calls and rng.random() < 0.15:
                 calls.append(list(calls[-1]))                                       # parallel edge
+        # every call site gets a source position: line and columns; parallel edges and some neighbours share the LINE
+        # (two calls written on one line: distinct call sites all the same)
+        line = rng.randint(1, 400)
+        for k, c in enumerate(calls):
+            if k and rng.random() < 0.6: line += rng.randint(1, 30)
+            col = rng.randint(2, 90)
+            c[5] = [str(line), str(col), str(line), str(col + max(1, len(c[3])))]
         funcs_by_class[ci].append(mk_func(nm, calls))
     return [mk_ds(classes[i][1], classes[i][0], funcs_by_class[i]) for i in range(ncls)]
 
